@@ -43,6 +43,19 @@ func TestReaderOnRepositoryParameterSets(t *testing.T) {
 		}
 		evid.Eval(1)
 	}
+	// the synthetic families (lib/h26xps encoders) read back to what they were built from
+	for _, y := range []SynthPS{{W: 1920, H: 1080, Profile: 2, Level: 123, Tier: true, Depth: 2}, {W: 34, H: 18, Profile: 1, Level: 30, Flags: 1 << 29, Interl: true}} {
+		p := y.build("H265")
+		s, err := flvparse.ParseHEVCSPSHead(p.SPS)
+		if err != nil || int(s.PTL.ProfileIDC) != y.Profile || int(s.PTL.LevelIDC) != y.Level || (s.PTL.TierFlag == 1) != y.Tier || int(s.BitDepthLumaM8) != y.Depth ||
+			int(s.Width) != (y.W+7)/8*8 || int(s.Height) != (y.H+7)/8*8 || s.ChromaFormatIDC != 1 {
+			t.Fatalf("synthetic %+v read back as %+v, %v", y, s, err)
+		}
+		if v, _, err := flvparse.ParseHEVCVPSPTL(p.VPS); err != nil || v != s.PTL {
+			t.Fatalf("synthetic %+v: VPS PTL %+v, SPS PTL %+v, %v", y, v, s.PTL, err)
+		}
+		evid.Eval(1)
+	}
 	for _, p := range h264Sets {
 		if p.SPS[0]&0x1F != 7 || p.PPS[0]&0x1F != 8 {
 			t.Fatalf("%s: not an SPS/PPS pair: %x %x", p.Name, p.SPS[0], p.PPS[0])
